@@ -396,6 +396,20 @@ func (txn *Txn) modify(e *Entry) error {
 	if oldEntry, ok := txn.pendingWrites[string(e.Key)]; ok && oldEntry.version != e.version {
 		txn.duplicateWrites = append(txn.duplicateWrites, oldEntry)
 	}
+	// The new entry also replaces an earlier write of the same key at the same
+	// version that was moved to duplicateWrites in the meantime. Otherwise both
+	// are committed with the same internal key, and the stale duplicate, which is
+	// written after the pending entries, would win over this later call.
+	if len(txn.duplicateWrites) > 0 {
+		dups := txn.duplicateWrites[:0]
+		for _, d := range txn.duplicateWrites {
+			if d.version == e.version && bytes.Equal(d.Key, e.Key) {
+				continue
+			}
+			dups = append(dups, d)
+		}
+		txn.duplicateWrites = dups
+	}
 	txn.pendingWrites[string(e.Key)] = e
 	return nil
 }
